@@ -39,6 +39,7 @@ def kernel(de, dn, mindist):
 
 @register
 class GreensFuncNumpy(Contract):
+    functional = True
     target = SP + ":greens_func_numpy"
 
     def configs(self, tier):
@@ -98,6 +99,7 @@ class _PredictSpec:
 
 @register
 class PredictNumpy(Contract):
+    functional = True
     target = SP + ":predict_numpy"
     stubs = {"greens_func_numpy": SP + ":greens_func_numpy"}
 
@@ -146,6 +148,7 @@ class PredictNumpy(Contract):
 
 @register
 class JacobianNumpy(Contract):
+    functional = True
     target = SP + ":jacobian_numpy"
     stubs = {"greens_func_numpy": SP + ":greens_func_numpy"}
 
@@ -257,6 +260,7 @@ class SplinePredict(Contract):
 
 @register
 class SplineJacobian(Contract):
+    functional = True
     target = SP + ":Spline.jacobian"
     stubs = {"n_1d_arrays": BU + ":n_1d_arrays", "jacobian_numpy": SP + ":jacobian_numpy"}
     inline = ("parse_engine",)
